@@ -6,7 +6,7 @@ CONSTANTS
   Q = 2
   InitHead = 2
   MaxR = 5
-  Froms = {0, 1, 2, 3}
+  Froms = {0, 1, 2, 3, 4, 5, 1000}
   Backend = "bolt"
   Buf = 100
   Remap = FALSE
